@@ -490,7 +490,7 @@ func processFetchForMessage(deps ServerDeps, conn net.Conn, messageID, uid int64
 		headerEnd := strings.Index(msg, "\r\n\r\n")
 		headers := msg
 		if headerEnd != -1 {
-			headers = msg[:headerEnd+2] // include last CRLF
+			headers = msg[:headerEnd+4] // include the blank line that ends the header (RFC 3501 6.4.5)
 		}
 		responseParts = append(responseParts, "BODY[HEADER] "+literal(headers))
 	}
@@ -501,7 +501,7 @@ func processFetchForMessage(deps ServerDeps, conn net.Conn, messageID, uid int64
 		headerEnd := strings.Index(msg, "\r\n\r\n")
 		headers := msg
 		if headerEnd != -1 {
-			headers = msg[:headerEnd+2] // include last CRLF
+			headers = msg[:headerEnd+4] // include the blank line that ends the header (RFC 3501 6.4.5)
 		}
 		responseParts = append(responseParts, "RFC822.HEADER "+literal(headers))
 	}
